@@ -47,7 +47,8 @@ PROPS = {
 PROBES = {'C16': ['several_crossing_in_one_update', 'crossing_and_returning', 'within_1e-6_of_plane', 'entered_outlet_beyond_far_end',
                   'inactive_stage', 'empty_fluid', 'ghost_inlet', 'props_to_copy_subset', 'fluid_backflow_into_inlet_zone',
                   'outlet_particle_deleted', 'inlet_recycled', 'ghost_outlet', 'inlet_particle_beyond_upstream_end',
-                  'zone_name_contains_other_zone_name', 'manager_used_before_with_other_zone_lengths']}
+                  'zone_name_contains_other_zone_name', 'manager_used_before_with_other_zone_lengths', 'default_update_classes',
+                  'more_inlets_than_outlets']}
 
 
 # array names: the default ones, and sets in which one zone's name is a suffix / prefix of another's (zone bookkeeping is keyed by name)
@@ -108,6 +109,10 @@ def gen(t, prop, tier):
     sc['names'] = list(NAME_SETS[t.wchoice([(0, 7), (1, 2), (2, 1)])])
     if t.bool(0.2):
         sc['prelife'] = [t.choice([1, 2, 3, 5, 7]), t.choice([1, 2, 3, 5, 7])]
+    elif t.bool(0.2):
+        sc['extra_inlet'] = t.choice([1, 2, 3])
+    if not (sc['out_ghost'] and fam == 'mirror') and t.bool(0.25):
+        sc['default_cls'] = t.choice([1, 2])
     return sc
 
 
@@ -215,12 +220,33 @@ def execute(sc, prop):
     InletCls = importlib.import_module('pysph.sph.bc.%s.inlet' % fam).Inlet
     OutletCls = importlib.import_module('pysph.sph.bc.%s.outlet' % fam).Outlet
     out_ghost = bool(sc.get('out_ghost')) and fam == 'mirror'
+    # the update classes may be left at their documented defaults (the base classes) instead of the family's classes
+    dflt = int(sc.get('default_cls') or 0)
+    if dflt not in (0, 1, 2) or (dflt and out_ghost):
+        raise InvalidScenario('default_cls')
+    ikw = {} if dflt == 2 else dict(update_cls=InletCls)
+    okw = {} if dflt in (1, 2) else dict(update_cls=OutletCls)
+    if dflt:
+        probe('default_update_classes')
     iinfo = InletInfo(pa_name=names[0], normal=[float(v) for v in n_inlet_normal], refpoint=[float(v) for v in ref_in], has_ghost=has_ghost,
-                      update_cls=InletCls)
+                      **ikw)
     oinfo = OutletInfo(pa_name=names[2], normal=[float(v) for v in d], refpoint=[float(v) for v in ref_out], has_ghost=out_ghost,
-                       props_to_copy=ptc, update_cls=OutletCls)
-    iom = mod.SimpleInletOutlet(fluid_arrays=[names[1]], inletinfo=[iinfo], outletinfo=[oinfo])
+                       props_to_copy=ptc, **okw)
+    # optionally a second, idle inlet far upstream (its particles never move): the manager then holds more inlets than outlets
+    inlet_b = iinfo_b = None
+    n_b = int(sc.get('extra_inlet') or 0)
+    if n_b:
+        if not 1 <= n_b <= 6:
+            raise InvalidScenario('extra_inlet')
+        off = 1000.0
+        inlet_b, tinb = make('idle_zone', [-(off + k + 0.5) * dx for k in range(n_b)])
+        iinfo_b = InletInfo(pa_name='idle_zone', normal=[float(v) for v in n_inlet_normal], refpoint=[float(v) for v in (origin - off * dx * d)],
+                            has_ghost=False, **ikw)
+        probe('more_inlets_than_outlets')
+    iom = mod.SimpleInletOutlet(fluid_arrays=[names[1]], inletinfo=[iinfo] + ([iinfo_b] if iinfo_b is not None else []), outletinfo=[oinfo])
     arrays = {names[0]: inlet, names[1]: fluid, names[2]: outlet}
+    if inlet_b is not None:
+        arrays['idle_zone'] = inlet_b
     ghost = None
     if has_ghost:
         ghost = iom.create_ghost(inlet, inlet=True)
@@ -231,7 +257,7 @@ def execute(sc, prop):
         oghost = iom.create_ghost(outlet, inlet=False)
         arrays[oghost.name] = oghost
         probe('ghost_outlet')
-    for pa, toks in ((inlet, tin), (fluid, tfl), (outlet, tou)):
+    for pa, toks in ((inlet, tin), (fluid, tfl), (outlet, tou)) + (((inlet_b, tinb),) if inlet_b is not None else ()):
         iom.add_io_properties(pa, None)
         pa.add_property('token', type='double', data=toks)
         pa.add_property('sv', type='double', stride=3, data=np.repeat(toks, 3) + np.tile([0.0, 0.25, 0.5], len(toks)))
@@ -276,12 +302,18 @@ def execute(sc, prop):
             prev[g1.name] = g1
         iom.get_inlet_outlet(prev)
         probe('manager_used_before_with_other_zone_lengths')
+    if pre is not None and inlet_b is not None:
+        raise InvalidScenario('prelife with an extra inlet')
     ios = iom.get_inlet_outlet(arrays)
-    inlet_io, outlet_io = ios[0], ios[1]
+    inlet_io, outlet_io = ios[0], ios[-1]
+    idle_io = ios[1] if inlet_b is not None else None
     Lin = iinfo.length
     Lout = oinfo.length
     if abs(Lin - n_in * dx) > 1e-9 * max(1.0, Lin) or abs(Lout - n_out * dx) > 1e-9 * max(1.0, Lout):
         violate('zone-length', 'zone lengths computed as %r / %r, expected %r / %r' % (Lin, Lout, n_in * dx, n_out * dx))
+    if iinfo_b is not None and abs(iinfo_b.length - n_b * dx) > 1e-9 * max(1.0, iinfo_b.length):
+        violate('zone-length', 'length of the second inlet zone computed as %r, expected %r' % (iinfo_b.length, n_b * dx))
+    idle_before = _records(inlet_b) if inlet_b is not None else None
     n_fluid0 = fluid.get_number_of_particles()
     entered = left = deleted_total = 0
     pattern = []
@@ -340,6 +372,8 @@ def execute(sc, prop):
         t_now += 1.0
         try:
             inlet_io.update(t_now, 1.0, stage)
+            if idle_io is not None:
+                idle_io.update(t_now, 1.0, stage)
             outlet_io.update(t_now, 1.0, stage)
         except Exception as e:
             import traceback
@@ -350,6 +384,12 @@ def execute(sc, prop):
         a_fl = _records(fluid)
         a_ou = _records(outlet)
         what = 'step %d (s=%r, stage=%d)' % (si, s, stage)
+        if inlet_b is not None:
+            def _pos(recs):
+                return sorted((r['token'], r['x'], r['y'], r['z']) for r in recs)
+            if _pos(_records(inlet_b)) != _pos(idle_before):
+                violate('idle-zone-changed', '%s: the particles of the idle second inlet (which never move) were changed' % what)
+                break
         if stage != 2:
             def strip(recs):
                 return [{p: v for p, v in r.items() if p not in ('ioid', 'disp')} for r in recs]
